@@ -28,6 +28,41 @@ func fullPop() gen.PopOpts {
 	return o
 }
 
+// spare gives every slice reachable from the list spare capacity (as slices grown by append have): sharing a
+// backing array only shows when one side can grow in place.
+func spare[T any](xs []T) []T {
+	if xs == nil {
+		return nil
+	}
+	out := make([]T, len(xs), len(xs)+4)
+	copy(out, xs)
+	return out
+}
+
+func spareNode(n *sbom.Node) {
+	n.Licenses, n.Attribution, n.FileTypes, n.PrimaryPurpose = spare(n.Licenses), spare(n.Attribution), spare(n.FileTypes), spare(n.PrimaryPurpose)
+	n.Suppliers, n.Originators, n.ExternalReferences = spare(n.Suppliers), spare(n.Originators), spare(n.ExternalReferences)
+	for _, ps := range [][]*sbom.Person{n.Suppliers, n.Originators} {
+		for _, p := range ps {
+			p.Contacts = spare(p.Contacts)
+			for _, cc := range p.Contacts {
+				cc.Contacts = spare(cc.Contacts)
+			}
+		}
+	}
+}
+
+func spareList(nl *sbom.NodeList) *sbom.NodeList {
+	nl.Nodes, nl.Edges, nl.RootElements = spare(nl.Nodes), spare(nl.Edges), spare(nl.RootElements)
+	for _, e := range nl.Edges {
+		e.To = spare(e.To)
+	}
+	for _, n := range nl.Nodes {
+		spareNode(n)
+	}
+	return nl
+}
+
 func fullNodeList(r *rand.Rand, ids []string, o gen.PopOpts) *sbom.NodeList {
 	nl := &sbom.NodeList{}
 	for _, id := range ids {
@@ -37,15 +72,15 @@ func fullNodeList(r *rand.Rand, ids []string, o gen.PopOpts) *sbom.NodeList {
 		nl.Edges = append(nl.Edges, &sbom.Edge{From: id, Type: sbom.Edge_contains, To: []string{ids[(i+1)%len(ids)], ids[(i+2)%len(ids)]}})
 	}
 	nl.RootElements = []string{ids[0], ids[len(ids)-1]}
-	return nl
+	return spareList(nl)
 }
 
 var c12Types = []c12Type{
-	{"Node", func(r *rand.Rand) proto.Message { return gen.Node(r, "n", fullPop()) },
+	{"Node", func(r *rand.Rand) proto.Message { n := gen.Node(r, "n", fullPop()); spareNode(n); return n },
 		func(m proto.Message) proto.Message { return m.(*sbom.Node).Copy() },
 		func(a, b proto.Message) (bool, bool) { return a.(*sbom.Node).Equal(b.(*sbom.Node)), true }},
 	{"Edge", func(r *rand.Rand) proto.Message {
-		return &sbom.Edge{From: "a", Type: sbom.Edge_Type(1 + r.Intn(44)), To: []string{"b", "c", "d"}[:1+r.Intn(3)]}
+		return &sbom.Edge{From: "a", Type: sbom.Edge_Type(1 + r.Intn(44)), To: spare([]string{"b", "c", "d"}[:1+r.Intn(3)])}
 	},
 		func(m proto.Message) proto.Message { return m.(*sbom.Edge).Copy() },
 		func(a, b proto.Message) (bool, bool) { return a.(*sbom.Edge).Equal(b.(*sbom.Edge)), true }},
@@ -191,7 +226,9 @@ func firstDiff(a, b proto.Message) string {
 func c12Operands(seed int64) (*sbom.NodeList, *sbom.NodeList) {
 	r := rand.New(rand.NewSource(seed))
 	// a: a,b,c ; b: b,c,d  -> shared b,c ; unshared a / d
-	return fullNodeList(r, []string{"a", "b", "c"}, fullPop()), fullNodeList(r, []string{"b", "c", "d"}, fullPop())
+	a, b := fullNodeList(r, []string{"a", "b", "c"}, fullPop()), fullNodeList(r, []string{"b", "c", "d"}, fullPop())
+	a.RootElements = spare([]string{"a", "b", "c"}) // three roots with room to grow; b adds root d
+	return a, b
 }
 
 func c12Combined(c *core.C, op string) {
@@ -279,7 +316,7 @@ func c12History(c *core.C) {
 	mk := func(r *rand.Rand, id string) *sbom.Node { return gen.Node(r, id, o) }
 	var pool []*sbom.NodeList
 	for i := 0; i < 3; i++ {
-		pool = append(pool, gen.RandomNodeList(r, gen.GraphOpts{Universe: ids, EdgeTypes: c09Types, PNode: 0.7, PEdge: 0.25, PRoot: 0.4, NodeMaker: mk}))
+		pool = append(pool, spareList(gen.RandomNodeList(r, gen.GraphOpts{Universe: ids, EdgeTypes: c09Types, PNode: 0.7, PEdge: 0.25, PRoot: 0.4, NodeMaker: mk, SplitEdges: i == 2})))
 	}
 	var results []*c12Result
 	trace := []string{}
@@ -308,7 +345,7 @@ func c12History(c *core.C) {
 		var step string
 		var produced proto.Message
 		bad := false
-		switch r.Intn(11) {
+		switch r.Intn(12) {
 		case 0, 1, 2:
 			step = fmt.Sprintf("Union(%d,%d)", ai, bi)
 			bad = guard(c, "Union", trace, func() { produced = a.Union(b) })
@@ -339,6 +376,9 @@ func c12History(c *core.C) {
 		case 9:
 			step = fmt.Sprintf("RemoveNodes(%d)", ai)
 			bad = guard(c, "RemoveNodes", trace, func() { a.RemoveNodes([]string{gen.Pick(r, ids)}) })
+		case 11:
+			step = fmt.Sprintf("RootAdded(%d)", ai)
+			bad = guard(c, "AddRootNode", trace, func() { a.AddRootNode(mk(r, fmt.Sprintf("extra%d", s))) })
 		case 10:
 			step = fmt.Sprintf("RelateNodeAtID(%d)", ai)
 			bad = guard(c, "RelateNodeAtID", trace, func() { _ = a.RelateNodeAtID(mk(r, "fresh"), gen.Pick(r, ids), sbom.Edge_contains) })
